@@ -1,8 +1,45 @@
 import Driver.Proto
-/-! driver handlers for property C10 (ops `model.*`, `spec.*`, `trig.*`) -/
+import Verif.Model.TokenBuffer
+import Verif.Model.Api
+/-! driver handlers for property C10 -/
 namespace Verif.Driver.C10
-open Verif Verif.Driver
+open Verif Verif.Driver Verif.Model.TokenBuffer
 
-def handlers : List (String × Handler) := []
+def runOps (E : Nat) : TB → List (List Char) → Option (List Nat)
+  | _, [] => some []
+  | b, op :: r =>
+    match op with
+    | 's' :: _ => match shift E b with
+      | some (b', t) => (runOps E b' r).map (t :: ·)
+      | none => none
+    | 'p' :: ds => match parseIntChars ds with
+      | some i => match peek E b i.toNat with
+        | some (b', t) => (runOps E b' r).map (t :: ·)
+        | none => none
+      | none => none
+    | _ => none
+
+/-- `model.c10.script E ops` (ops: list of `s` / `p<i>`): the ids of the returned tokens, or `panic` -/
+def script : Handler := fun args => do
+  let E ← argNat args 0
+  let ops ← argList args 1
+  match runOps E init (ops.map bytesToChars) with
+  | some ts => .ok (strBytes (",".intercalate (ts.map toString)))
+  | none => .ok (strBytes "panic")
+
+/-- `model.c10.bytes mode retOrig v bufAfter isErr out` → returned ‖ callerAfter (list reply) -/
+def bytesOp : Handler := fun args => do
+  let mode ← argChars args 0
+  let v ← argBytes args 1
+  let bufAfter ← argBytes args 2
+  let isErr ← argBool args 3
+  let out ← argBytes args 4
+  match Verif.Model.Api.InputMode.ofString (String.ofList mode) with
+  | none => .error "bad mode"
+  | some m =>
+    let o := Verif.Model.Api.bytesCall m true (fun _ => ⟨bufAfter, if isErr then .error "e" else .ok out⟩) v
+    .ok (listReply [o.returned, o.callerAfter])
+
+def handlers : List (String × Handler) := [("model.c10.script", script), ("model.c10.bytes", bytesOp)]
 
 end Verif.Driver.C10
